@@ -46,17 +46,17 @@ def identities(state):
     return out
 
 
-def mutate(rng, state):
+def mutate(rng, state, keep_cells=False):
     """a real in-place mutation by the caller"""
     h, w = state.grid.shape.height, state.grid.shape.width
-    kind = rng.choice(['door', 'cell', 'agent', 'box', 'item', 'orientation'])
+    kind = rng.choice(['door', 'agent', 'item', 'orientation'] if keep_cells else ['door', 'cell', 'agent', 'box', 'item', 'orientation'])
     if kind == 'door':
         for pos in state.grid.area.positions():
             o = state.grid[pos]
             if isinstance(o, Door):
                 o.state = Door.Status((o.state.value + 1) % 3)
                 return
-        kind = 'cell'
+        kind = 'agent' if keep_cells else 'cell'
     if kind == 'box':
         for pos in state.grid.area.positions():
             o = state.grid[pos]
@@ -84,6 +84,17 @@ def snapshot(state):
     return json.dumps(j, sort_keys=True)
 
 
+def door_route_states():
+    """corridors in which a door lies on the only route to the single exit (the shortest-path reward depends on its status)"""
+    out = []
+    for status in (1, 2):
+        for held in (steps.HELD[0], O('Key', 0, 'RED')):
+            row = [steps.FLOOR, O('Door', status, 'RED'), steps.FLOOR, O('Exit')]
+            out.append({'grid': [row], 'pos': [0, 0], 'ori': 'R', 'item': held, 'route': True})
+            out.append({'grid': [[O('Wall'), O('Wall'), O('Wall'), O('Wall')], row], 'pos': [1, 0], 'ori': 'R', 'item': held, 'route': True})
+    return out
+
+
 def start_states(rng, n):
     out = []
     for _ in range(n):
@@ -99,7 +110,11 @@ class World:
         self.rng = rng
         comps = steps.COMPOSITIONS[comps_name]
         self.tf = build.transition_list(comps)
-        self.rf = build.reward(steps.R_SHIPPED)
+        self.route = bool(st_json.get('route'))
+        st_json = {k: v for k, v in st_json.items() if k != 'route'}
+        # on the door-route states the reward includes the shortest-path shaping (exactly one exit)
+        self.rf = build.reward(steps.C('reduce_sum', reward_functions=[steps.R_SHIPPED, steps.C('getting_closer_shortest_path', object_type='Exit')])
+                               if self.route else steps.R_SHIPPED)
         self.xf = build.termination(steps.TERM_SHIPPED)
         h, w = len(st_json['grid']), len(st_json['grid'][0])
         self.of = build.observation(steps.C(rng.choice(['fully_transparent', 'raytracing', 'partially_occluded']), area=[[-2, 0], [-1, 1]]))
@@ -116,7 +131,10 @@ class World:
             return snapshot(self.of(st, rng=np.random.default_rng(0)))
         nxt = transition_with_copy(self.tf, st, action, rng=np.random.default_rng(5))
         if kind == 'Reward':
-            return repr(float(self.rf(st, action, nxt)))
+            try:
+                return repr(float(self.rf(st, action, nxt)))
+            except ValueError as e:   # a documented precondition is unmet (e.g. the caller mutated the only exit away)
+                return 'raise:' + type(e).__name__
         if kind == 'Terminate':
             return repr(bool(self.xf(st, action, nxt)))
         return snapshot(nxt)
@@ -126,7 +144,7 @@ class World:
         for step_i, (op, h, new) in enumerate(beh):
             before = [snapshot(s) for s in self.handles]
             st = self.handles[h - 1]
-            action = self.rng.choice(list(Action))
+            action = self.rng.choice([Action.ACTUATE, Action.TURN_LEFT, Action.ACTUATE, Action.MOVE_FORWARD]) if self.route else self.rng.choice(list(Action))
             if op == 'Step':
                 if self.via == 'gridworld':
                     nxt, r, d = self.env.functional_step(st, action)
@@ -144,7 +162,7 @@ class World:
                     pass
                 self.handles.append(c)
             elif op == 'Mutate':
-                mutate(self.rng, st)
+                mutate(self.rng, st, keep_cells=self.route)
             elif op in ('Obs', 'Reward', 'Terminate'):
                 key = (op, snapshot(st), action.name)
                 ans = self.ask(op, st, action)
@@ -182,10 +200,10 @@ def _chunk(args):
     rng = random.Random(seed)
     problems = []
     n = 0
-    starts = start_states(rng, 40)
+    starts = start_states(rng, 40) + door_route_states() * 2
     for bi, beh in enumerate(behs):
         st = starts[bi % len(starts)]
-        comps = rng.choice(['all', 'keydoor', 'nested', 'only_box', 'basic'])
+        comps = 'keydoor' if st.get('route') else rng.choice(['all', 'keydoor', 'nested', 'only_box', 'basic'])
         via = 'gridworld' if bi % 2 else 'direct'
         w = World(rng, st, comps, via)
         p = w.run(beh)
